@@ -174,6 +174,42 @@ Theorem C18_pl_scale_pointwise : forall c f t, interp (pl_scale c f) t == c * in
 Proof. exact pl_scale_pointwise. Qed.
 Print Assumptions C18_pl_scale_pointwise.
 
+(* a PL function is linear on every interval that contains none of its breakpoints in its interior *)
+Theorem C18_interp_linear_between : forall l a b t, xsorted l -> a < b ->
+  (forall p, In p l -> ~ (a < fst p /\ fst p < b)) -> a <= t -> t <= b ->
+  interp l t == interp l a + (interp l b - interp l a) * ((t - a) / (b - a)).
+Proof. exact interp_linear_between. Qed.
+Print Assumptions C18_interp_linear_between.
+
+(* sums and differences on DIFFERENT breakpoint lists: any strictly increasing list r that contains the abscissae of both
+   operands and carries f+g (f-g) at its own breakpoints is the pointwise sum (difference) at every t of its range.  The three
+   hypotheses are finite checks; the correspondence run compares the breakpoints of every C++ result with the transcribed merge
+   and its ordinates with the pointwise operation. *)
+Theorem C18_pl_sum_determined : forall l1 l2 r, xsorted l1 -> xsorted l2 -> xsorted r -> r <> [] ->
+  (forall p, In p l1 -> exists q, In q r /\ fst q == fst p) ->
+  (forall p, In p l2 -> exists q, In q r /\ fst q == fst p) ->
+  (forall q, In q r -> snd q == interp l1 (fst q) + interp l2 (fst q)) ->
+  forall t, fst (nthp r 0) <= t -> t <= fst (nthp r (length r - 1)) -> interp r t == interp l1 t + interp l2 t.
+Proof. exact pl_sum_determined. Qed.
+Print Assumptions C18_pl_sum_determined.
+
+Theorem C18_pl_difference_determined : forall l1 l2 r, xsorted l1 -> xsorted l2 -> xsorted r -> r <> [] ->
+  (forall p, In p l1 -> exists q, In q r /\ fst q == fst p) ->
+  (forall p, In p l2 -> exists q, In q r /\ fst q == fst p) ->
+  (forall q, In q r -> snd q == interp l1 (fst q) - interp l2 (fst q)) ->
+  forall t, fst (nthp r 0) <= t -> t <= fst (nthp r (length r - 1)) -> interp r t == interp l1 t - interp l2 t.
+Proof. exact pl_difference_determined. Qed.
+Print Assumptions C18_pl_difference_determined.
+Example C18_pl_sum_determined_nonvacuous :
+  let l1 := [(0, 0); (2 # 1, 2 # 1); (4 # 1, 0)] in let l2 := [(0, 0); (1, 1); (4 # 1, 0)] in
+  let r := [(0, 0); (1, 2 # 1); (2 # 1, (2 # 1) + (2 # 3)); (4 # 1, 0)] in
+  xsorted l1 /\ xsorted l2 /\ xsorted r /\
+  (forall q, In q r -> snd q == interp l1 (fst q) + interp l2 (fst q)).
+Proof.
+  repeat split; try (unfold xsorted; simpl; repeat constructor; reflexivity).
+  simpl. intros q [H|[H|[H|[H|[]]]]]; subst q; reflexivity.
+Qed.
+
 (* algorithm model: one level of multiply_lanscape_by_real_number_not_overwrite is the pointwise multiple *)
 Theorem C18_scale_level_pointwise : forall c f t, interp (scale_level c f) t == c * interp f t.
 Proof. exact scale_level_pointwise. Qed.
